@@ -6,7 +6,7 @@ HF = dict(Amts=[1, 3, 10], Dts=[3, 5], SlashDiv=[2, 10], MaxTime=1040, EmitLen=0
 HF_SMALL = dict(MaxBatch=3, UserFunds=1000)
 
 
-def hf_mc(name, consts=None, extra=None, depth=(4, 6), timeout=(75, 600), **kw):
+def hf_mc(name, consts=None, extra=None, depth=(4, 6), timeout=(75, 420), **kw):
     c = dict(HF_SMALL)
     c.update(consts or {})
     e = dict(HF)
@@ -21,7 +21,7 @@ def hf_hunt(name, consts=None, extra=None, hunt_time=(240, 3000), **kw):
     return j
 
 
-def hf_sim(name, consts=None, extra=None, num=(60, 1200), depth=22, **kw):
+def hf_sim(name, consts=None, extra=None, num=(60, 600), depth=22, **kw):
     c = dict(HF_SMALL)
     c["MaxBatch"] = 6
     c.update(consts or {})
@@ -54,7 +54,7 @@ def menu(base, **over):
 MENU_BIG = menu(MENU_HUB, amax=2000000, prices=[[1, 0, 0], [0, 750000000, 0], [1, 500000000, 0], [0, 333333333, 333333333]])
 
 
-def hub_drives(runs=(150, 1500), big=(40, 600)):
+def hub_drives(runs=(150, 600), big=(40, 200)):
     return [dict(name="hubflow", menu=MENU_HUB, runs=runs, len=40, consts=dict(MaxBatch=8)),
             dict(name="hubflow-big", menu=MENU_BIG, runs=big, len=40, consts=dict(MaxBatch=8, UserFunds=400000000))]
 
@@ -64,7 +64,7 @@ MENU_RELEASE = {"items": {"bond": 4, "bond_st": 4, "unbond_b": 7, "unbond_st": 7
                 "vary": {"fee": [[0, 5000000, 0], [0, 0, 0], [0, 500000000, 0]], "thr": [[1, 0, 0]], "periods": [[2, 5], [3, 3], [1, 7]]}}
 
 
-def release_drive(runs=(150, 1500)):
+def release_drive(runs=(150, 600)):
     return dict(name="release", menu=MENU_RELEASE, runs=runs, len=45, consts=dict(MaxBatch=8))
 
 
@@ -75,7 +75,7 @@ MENU_DUST = {"items": {"bond": 5, "bond_st": 5, "unbond_b": 7, "unbond_st": 7, "
              "vary": {"fee": [[0, 5000000, 0], [0, 0, 0], [0, 500000000, 0]], "thr": [[1, 0, 0]], "periods": [[2, 5], [1, 7]]}}
 
 
-def dust_drive(runs=(150, 1500)):
+def dust_drive(runs=(150, 600)):
     return dict(name="dust", menu=MENU_DUST, runs=runs, len=45, consts=dict(MaxBatch=8))
 
 
@@ -167,7 +167,7 @@ AUTH_PREFIX = [ex("usr1", "hub", {"k": "bond"}, [{"d": "usei", "a": 10}]), ex("u
 AUTH_CONSTS = dict(MaxBatch=3, UserFunds=1000, Prefix=AUTH_PREFIX)
 
 
-def auth_mc(name, depth=(1, 2), timeout=(200, 1200), senders=None, **kw):
+def auth_mc(name, depth=(1, 2), timeout=(200, 600), senders=None, **kw):
     return dict(name=name, module="MC_Auth", consts=dict(AUTH_CONSTS), init="InitP",
                 extra=dict(Senders=senders or SENDERS, EmitLen=0, OnlyOk=False, AuthDepth=0), depth=depth, timeout=timeout, **kw)
 
@@ -175,12 +175,12 @@ def auth_mc(name, depth=(1, 2), timeout=(200, 1200), senders=None, **kw):
 def auth_hunt(name, **kw):
     j = auth_mc(name, **kw)
     j["hunt_time"] = (240, 3000)
-    j["hunt_num"] = (120, 1200)
+    j["hunt_num"] = (120, 500)
     j["sim_depth"] = 12
     return j
 
 
-def auth_sim(name, num=(40, 600), depth=10):
+def auth_sim(name, num=(40, 200), depth=10):
     return dict(name=name, module="MC_Auth", consts=dict(AUTH_CONSTS), init="InitP",
                 extra=dict(Senders=SENDERS, AuthDepth=0), num=num, depth=depth)
 
@@ -190,7 +190,7 @@ MENU_AUTH = {"items": {"auth": 14, "advance": 1, "pause": 2, "params": 2, "keepe
              "amax": 10, "dts": [1, 3, 5], "probes": [], "probe_every": 6, "auth_probes": True}
 
 
-def auth_drive(runs=(12, 150)):
+def auth_drive(runs=(12, 60)):
     return [dict(name="auth", menu=MENU_AUTH, runs=runs, len=24, consts=dict(MaxBatch=6, UserFunds=1000, Prefix=AUTH_PREFIX))]
 
 
@@ -202,7 +202,7 @@ PLANS["C11"] = dict(
     invariants=[], actions=["Act_C11"],
     rule="non-trivial: hub messages attempted while paused, pause / unpause cycles, legacy wait-list entries present",
     mc=[auth_mc("all")], hunt=[auth_hunt("all")], sim=[auth_sim("all")],
-    drive=auth_drive() + [dict(name="hubflow-pause", menu=menu(MENU_HUB, items={"pause": 4, "migrate": 1, "set_legacy": 1}), runs=(80, 800), len=40, consts=dict(MaxBatch=8))])
+    drive=auth_drive() + [dict(name="hubflow-pause", menu=menu(MENU_HUB, items={"pause": 4, "migrate": 1, "set_legacy": 1}), runs=(80, 320), len=40, consts=dict(MaxBatch=8))])
 PLANS["C20"] = dict(
     invariants=["Inv_C20"], actions=["Act_C20"],
     rule="non-trivial: update / instantiate messages with each optional field absent, in range, on the boundary and out of range",
@@ -219,7 +219,7 @@ PLANS["C13"] = dict(
     sim=[hf_sim("nv3", consts=dict(NV=3, InitVals=[1, 2, 3]), extra=dict(Features=["core", "slash", "registry", "reward"], RewardAmts=[40, 100]))],
     drive=[dict(name="registry", menu=menu(MENU_HUB, items={"add_validator": 4, "remove_validator": 6, "redelegations": 2, "set_canredel": 2, "accrue": 4, "ugi": 3, "set_ext": 0},
                                            vary={"keeper_rate": [[0, 50000000, 0], [0, 0, 0]], "init_vals": [[1, 2, 3], [1, 2], [2]]}, amax=200),
-                runs=(120, 1200), len=40, consts=dict(MaxBatch=8, NV=3, InitVals=[1, 2, 3]))])
+                runs=(120, 500), len=40, consts=dict(MaxBatch=8, NV=3, InitVals=[1, 2, 3]))])
 
 LAB = dict(Features=["rewardlab"], Amts=[1, 3], RewardAmts=[1, 3, 7], MaxTime=100000)
 MENU_LAB = {"items": {"rew_swapdenom": 1, "rew_swap": 1, "mint_b": 5, "transfer_b": 6, "burn_b": 1, "deliver": 5, "index_update": 5, "claim": 5, "bond": 2, "unbond_b": 2, "convert_b_st": 1,
@@ -229,9 +229,9 @@ MENU_LAB = {"items": {"rew_swapdenom": 1, "rew_swap": 1, "mint_b": 5, "transfer_
 MENU_LAB_BIG = menu(MENU_LAB, amax=3000000, items={"bond": 0, "bond_st": 0, "unbond_b": 0, "convert_b_st": 0, "convert_st_b": 0})
 
 
-def lab_drives(runs=(150, 1500)):
+def lab_drives(runs=(150, 600)):
     return [dict(name="rewardlab", menu=MENU_LAB, runs=runs, len=40, consts=dict(MaxBatch=8, Users=["usr1", "usr2", "usr3"])),
-            dict(name="rewardlab-big", menu=MENU_LAB_BIG, runs=(40, 600), len=40, consts=dict(MaxBatch=8, UserFunds=400000000, Users=["usr1", "usr2", "usr3"]))]
+            dict(name="rewardlab-big", menu=MENU_LAB_BIG, runs=(40, 200), len=40, consts=dict(MaxBatch=8, UserFunds=400000000, Users=["usr1", "usr2", "usr3"]))]
 
 
 for pid, inv, act, rule in (("C14", ["Inv_C14"], ["Act_C14"], "non-trivial: behaviours with >= 1 index update while >= 2 holders have balances, and claims (committed or probed)"),
@@ -253,7 +253,7 @@ PLANS["C18"] = dict(
     hunt=[hf_hunt("tok", extra=dict(Features=["core", "transfer", "allow", "tokinit"]))],
     sim=[hf_sim("tok", extra=dict(Features=["core", "transfer", "allow", "tokinit"]))],
     drive=[dict(name="tokens", menu=menu(MENU_HUB, items={"allow_b": 5, "allow_st": 5, "from_b": 6, "from_st": 6, "transfer_b": 4, "transfer_st": 4, "tokinit": 1, "disp_hub": 2}),
-                runs=(150, 1500), len=40, consts=dict(MaxBatch=8))])
+                runs=(150, 600), len=40, consts=dict(MaxBatch=8))])
 
 DISP = dict(FundAmts=[0, 1, 7, 30], Prices=["D1", "D075", "D03", "D1000", "D0001"], Rates=["D0", "D005", "D03", "D1"],
             BondedPairs=[1, 2, 3, 4, 5, 6, 7, 8], EmitLen=0, OnlyOk=False)
@@ -278,9 +278,9 @@ MENU_DISP = {"items": {"disp_swapdenom": 2, "fund_disp": 10, "disp_swap": 6, "di
 PLANS["C17"] = dict(
     invariants=["Inv_C17"], actions=["Act_C17"], rule="a case is (balances of both reward coins, bonded pair, price, keeper rate); non-trivial = both a swap and a dispatch executed",
     mc=[disp_mc("grid")], hunt=[disp_hunt("grid")],
-    sim=[dict(name="grid", module="MC_Dispatch", consts=dict(DISP_CONSTS), init="InitP", extra=dict(DISP), num=(60, 1200), depth=12)],
-    drive=[dict(name="dispatch", menu=MENU_DISP, runs=(150, 1500), len=40, consts=dict(MaxBatch=8)),
-           dict(name="dispatch-big", menu=menu(MENU_DISP, amax=2000000, prices=[[1, 0, 0], [0, 750000000, 0], [1, 500000000, 0], [0, 333333333, 333333333]]), runs=(40, 600), len=40, consts=dict(MaxBatch=8, UserFunds=400000000))])
+    sim=[dict(name="grid", module="MC_Dispatch", consts=dict(DISP_CONSTS), init="InitP", extra=dict(DISP), num=(60, 600), depth=12)],
+    drive=[dict(name="dispatch", menu=MENU_DISP, runs=(150, 600), len=40, consts=dict(MaxBatch=8)),
+           dict(name="dispatch-big", menu=menu(MENU_DISP, amax=2000000, prices=[[1, 0, 0], [0, 750000000, 0], [1, 500000000, 0], [0, 333333333, 333333333]]), runs=(40, 200), len=40, consts=dict(MaxBatch=8, UserFunds=400000000))])
 
 PLANS["C19"] = dict(
     invariants=[], actions=["Act_C19"], rule="non-trivial: successful UpdateGlobalIndex with pending rewards on >= 1 validator (also triggered by RemoveValidator)",
@@ -288,7 +288,7 @@ PLANS["C19"] = dict(
         hf_mc("flow", consts=dict(NV=2, InitVals=[1, 2]), extra=dict(Features=["core", "reward", "registry"], Amts=[10], RewardAmts=[40, 100], Dts=[3]), depth=(3, 4))],
     hunt=[disp_hunt("grid"), hf_hunt("flow", consts=dict(NV=2, InitVals=[1, 2]), extra=dict(Features=["core", "slash", "reward", "registry", "transfer"], RewardAmts=[1, 40, 100]), hunt_num=(200, 4000))],
     sim=[hf_sim("flow", consts=dict(NV=2, InitVals=[1, 2]), extra=dict(Features=["core", "slash", "reward", "registry"], RewardAmts=[40, 100]))],
-    drive=[dict(name="dispatch", menu=MENU_DISP, runs=(150, 1500), len=40, consts=dict(MaxBatch=8, NV=2, InitVals=[1, 2])),
+    drive=[dict(name="dispatch", menu=MENU_DISP, runs=(150, 600), len=40, consts=dict(MaxBatch=8, NV=2, InitVals=[1, 2])),
            PLANS["C13"]["drive"][0]])
 
 
@@ -317,9 +317,9 @@ MENU_REWARDS_SLASH = {"items": {"bond": 4, "bond_st": 4, "slash": 5, "accrue": 8
                       "amax": 400, "dts": [1, 3, 5], "slash_div": [3, 10], "probes": [], "probe_every": 0,
                       "vary": {"keeper_rate": [[0, 50000000, 0]], "fee": [[0, 5000000, 0], [0, 0, 0]], "thr": [[1, 0, 0]]}}
 MENU_STALE = menu(MENU_HUB, items={"advance_big": 3, "set_ext": 4, "accrue": 1, "ugi": 1})
-PLANS["C06"]["drive"] = PLANS["C06"]["drive"] + [dict(name="rewards-slash", menu=MENU_REWARDS_SLASH, runs=(150, 1500), len=40, consts=dict(MaxBatch=8, NV=2, InitVals=[1, 2]))]
-PLANS["C02"]["drive"] = [dict(name="rewards-slash", menu=MENU_REWARDS_SLASH, runs=(150, 1500), len=40, consts=dict(MaxBatch=8, NV=2, InitVals=[1, 2]))]
-PLANS["C09"]["drive"] = PLANS["C09"]["drive"] + [dict(name="stale", menu=MENU_STALE, runs=(150, 1500), len=40, consts=dict(MaxBatch=8))]
+PLANS["C06"]["drive"] = PLANS["C06"]["drive"] + [dict(name="rewards-slash", menu=MENU_REWARDS_SLASH, runs=(150, 600), len=40, consts=dict(MaxBatch=8, NV=2, InitVals=[1, 2]))]
+PLANS["C02"]["drive"] = [dict(name="rewards-slash", menu=MENU_REWARDS_SLASH, runs=(150, 600), len=40, consts=dict(MaxBatch=8, NV=2, InitVals=[1, 2]))]
+PLANS["C09"]["drive"] = PLANS["C09"]["drive"] + [dict(name="stale", menu=MENU_STALE, runs=(150, 600), len=40, consts=dict(MaxBatch=8))]
 
 # the hub flow over three validators and three users, with the registry changing underneath (stake spread over several
 # validators, several unbonding entries per batch, one validator slashed among several, removal while batches are in flight)
@@ -328,7 +328,7 @@ MENU_WIDE = menu(MENU_HUB, items={"add_validator": 2, "remove_validator": 2, "re
                                  "periods": [[2, 5], [3, 3], [1, 7]], "init_vals": [[1, 2, 3], [1, 2], [1, 3]]})
 
 
-def wide_drive(runs=(60, 800)):
+def wide_drive(runs=(60, 240)):
     return dict(name="hubflow-wide", menu=MENU_WIDE, runs=runs, len=45, consts=dict(MaxBatch=8, NV=3, InitVals=[1, 2, 3], Users=["usr1", "usr2", "usr3"]))
 
 
@@ -342,7 +342,7 @@ MENU_MARATHON = {"items": {"bond": 3, "bond_st": 3, "unbond_b": 8, "unbond_st": 
                  "vary": {"fee": [[0, 5000000, 0], [0, 0, 0]], "thr": [[1, 0, 0]], "periods": [[2, 5], [3, 8], [2, 12]]}}
 
 
-def marathon_drive(runs=(25, 300)):
+def marathon_drive(runs=(25, 100)):
     return dict(name="marathon", menu=MENU_MARATHON, runs=runs, len=170, consts=dict(MaxBatch=14, T0=1400000000))   # block time at Unix scale
 
 
@@ -356,7 +356,7 @@ MENU_MANY = menu(MENU_HUB, items={"add_validator": 1, "remove_validator": 2, "sl
                                  "init_vals": [[1, 2, 3, 4, 5, 6, 7, 8, 9, 10], [1, 2, 3, 4, 5, 6, 7, 8, 9], [2, 3, 4, 5, 6, 7, 8, 9, 10, 11, 12]]})
 
 
-def many_drive(runs=(20, 200)):
+def many_drive(runs=(20, 80)):
     return dict(name="hubflow-many", menu=MENU_MANY, runs=runs, len=40, consts=dict(MaxBatch=8, NV=12, InitVals=[1, 2, 3, 4, 5, 6, 7, 8, 9, 10]))
 
 
@@ -367,22 +367,22 @@ for _p in ("C02", "C04", "C13"):
 AIRDROP_ITEMS = {"set_airdrop": 3, "airdrop_cfg": 2, "airdrop_claim": 4, "airdrop_fab": 3, "ugi_hooks": 4, "index_update": 2, "claim": 2}
 PLANS["C19"]["mc"].append(hf_mc("airdrop", extra=dict(Features=["core", "reward", "airdrop"], Amts=[10], RewardAmts=[40, 100], Dts=[3]), depth=(3, 4)))
 PLANS["C19"]["sim"].append(hf_sim("airdrop", extra=dict(Features=["core", "reward", "airdrop"], Amts=[10], RewardAmts=[40, 100])))
-PLANS["C19"]["drive"].append(dict(name="airdrop", menu=menu(MENU_DISP, items=AIRDROP_ITEMS), runs=(100, 1200), len=40, consts=dict(MaxBatch=8)))
+PLANS["C19"]["drive"].append(dict(name="airdrop", menu=menu(MENU_DISP, items=AIRDROP_ITEMS), runs=(100, 400), len=40, consts=dict(MaxBatch=8)))
 PLANS["C11"]["drive"][1]["menu"] = menu(PLANS["C11"]["drive"][1]["menu"], items=AIRDROP_ITEMS)
 
 # peg-fee paths after rewards AND slashing (stSei rate above 1, bSei rate below the threshold), high fee rates
 MENU_PEG = {"items": {"bond": 4, "bond_st": 4, "fund_rebond": 4, "bond_rewards": 6, "slash": 4, "convert_st_b": 8, "convert_b_st": 4, "unbond_b": 3, "unbond_st": 1, "advance": 2, "check_slashing": 1},
             "amax": 1000, "dts": [1, 3, 5], "slash_div": [10, 10, 3], "probes": [], "probe_every": 0,
             "vary": {"fee": [[0, 500000000, 0], [0, 333333333, 333333333], [1, 0, 0], [0, 50000000, 0]], "thr": [[1, 0, 0], [0, 950000000, 0]], "periods": [[2, 5]]}}
-PLANS["C05"]["drive"] = PLANS["C05"]["drive"] + [dict(name="peg", menu=MENU_PEG, runs=(150, 1500), len=40, consts=dict(MaxBatch=8))]
-PLANS["C03"]["drive"] = PLANS["C03"]["drive"] + [dict(name="peg", menu=MENU_PEG, runs=(150, 1500), len=40, consts=dict(MaxBatch=8))]
+PLANS["C05"]["drive"] = PLANS["C05"]["drive"] + [dict(name="peg", menu=MENU_PEG, runs=(150, 600), len=40, consts=dict(MaxBatch=8))]
+PLANS["C03"]["drive"] = PLANS["C03"]["drive"] + [dict(name="peg", menu=MENU_PEG, runs=(150, 600), len=40, consts=dict(MaxBatch=8))]
 # a half-configured hub: fresh instance, dispatcher wired (to a contract that accepts everything), no registry, no tokens
 HALF_PREFIX = [{"k": "instantiate", "c": "hub", "sender": "owner2", "epoch": 2, "unbonding": 5, "fee": [0, 0, 0], "thr": [1, 0, 0]},
                ex("owner2", "hub", {"k": "update_config", "dispatcher": "sink", "registry": "", "bsei": "", "stsei": "", "airdrop": "", "rewards": "", "updater": ""})]
 # legacy (pre-migration) wait-list entries next to new requests, pause / migrate / unpause cycles
 MENU_LEGACY = {"items": {"set_legacy": 4, "unbond_b": 5, "unbond_st": 3, "bond": 3, "bond_st": 2, "pause": 7, "migrate": 3, "advance": 2, "withdraw": 1},
                "amax": 30, "dts": [1, 3, 5], "probes": ["withdraw"], "probe_every": 8}
-PLANS["C11"]["drive"] = PLANS["C11"]["drive"] + [dict(name="legacy", menu=MENU_LEGACY, runs=(60, 600), len=30, consts=dict(MaxBatch=8))]
+PLANS["C11"]["drive"] = PLANS["C11"]["drive"] + [dict(name="legacy", menu=MENU_LEGACY, runs=(60, 240), len=30, consts=dict(MaxBatch=8))]
 
 # staged deployments: a fresh hub on which exactly one of the two tokens (or only the registry, or only the reward contract) is registered so far
 def _inst(o):
@@ -398,9 +398,9 @@ def _cfg(o, **kw):
 STAGED_PREFIXES = [[_inst("owner2"), _cfg("owner2", bsei="bsei")], [_inst("owner2"), _cfg("owner2", stsei="stsei")],
                    [_inst("owner2"), _cfg("owner2", registry="registry", rewards="reward")], [_inst("owner2"), _cfg("owner2", bsei="usr1", dispatcher="dispatcher")]]
 for _p in ("C10", "C20"):
-    PLANS[_p]["drive"] = PLANS[_p]["drive"] + [dict(name="auth-staged", menu=menu(MENU_AUTH, prefixes=STAGED_PREFIXES, items={"owner_cfg": 14}), runs=(8, 100), len=14, consts=dict(MaxBatch=6, UserFunds=1000))]
+    PLANS[_p]["drive"] = PLANS[_p]["drive"] + [dict(name="auth-staged", menu=menu(MENU_AUTH, prefixes=STAGED_PREFIXES, items={"owner_cfg": 14}), runs=(8, 40), len=14, consts=dict(MaxBatch=6, UserFunds=1000))]
 for _p in ("C10", "C11", "C20"):
-    PLANS[_p]["drive"] = PLANS[_p]["drive"] + [dict(name="auth-half", menu=dict(MENU_AUTH, prefix=HALF_PREFIX), runs=(6, 80), len=18, consts=dict(MaxBatch=6, UserFunds=1000))]
+    PLANS[_p]["drive"] = PLANS[_p]["drive"] + [dict(name="auth-half", menu=dict(MENU_AUTH, prefix=HALF_PREFIX), runs=(6, 30), len=18, consts=dict(MaxBatch=6, UserFunds=1000))]
 
 # unbounded amounts: the ledger operations (Ledger.tla, used by Cw20.tla) preserve sum(balances) = supply - Apalache, thorough tier
 PLANS["C18"]["apalache"] = [dict(module="Ledger_apa", inv="IndInv", timeout=1500, thorough_only=True)]
@@ -452,10 +452,10 @@ _E2 = dict(invariants=[], actions=["Act_E2"], rule="released groups without slas
            mc=[], sim=[], seeded=[])
 EXPLORE["E2-paylag"] = dict(_E2, expect="counterexample",
                             hunt=[hf_hunt("lag", consts=dict(PayLag=True), extra=dict(Features=["core"], Dts=[1, 2, 3, 5]))],
-                            drive=[dict(name="release-lag", menu=MENU_RELEASE, runs=(60, 600), len=45, consts=dict(MaxBatch=8, PayLag=True))])
+                            drive=[dict(name="release-lag", menu=MENU_RELEASE, runs=(60, 240), len=45, consts=dict(MaxBatch=8, PayLag=True))])
 EXPLORE["E2-control"] = dict(_E2, expect="none",
                              hunt=[hf_hunt("nolag", extra=dict(Features=["core"], Dts=[1, 2, 3, 5]))],
-                             drive=[dict(name="release", menu=MENU_RELEASE, runs=(60, 600), len=45, consts=dict(MaxBatch=8))])
+                             drive=[dict(name="release", menu=MENU_RELEASE, runs=(60, 240), len=45, consts=dict(MaxBatch=8))])
 
 # the SDK's limit of 7 unbonding entries per (delegator, validator): with unbonding_period / epoch_period > 7 the eighth
 # undelegation inside one unbonding period is refused by the chain and takes the unbond that triggered it down (C09's exit)
@@ -463,6 +463,6 @@ _E2M = dict(invariants=[], actions=["Act_C09"], rule="unbond attempts", mc=[], s
 _MENU_ENTRIES = {"items": {"bond": 5, "unbond_b": 9, "advance": 9, "withdraw": 1}, "amax": 50, "dts": [2], "probes": ["unbond_b"], "probe_every": 5,
                  "vary": {"fee": [[0, 0, 0]], "thr": [[1, 0, 0]], "periods": [[1, 20]]}}
 EXPLORE["E2-maxentries"] = dict(_E2M, expect="counterexample",
-                                drive=[dict(name="entries", menu=_MENU_ENTRIES, runs=(20, 200), len=120, consts=dict(MaxBatch=14, MaxEntries=True))])
+                                drive=[dict(name="entries", menu=_MENU_ENTRIES, runs=(20, 80), len=120, consts=dict(MaxBatch=14, MaxEntries=True))])
 EXPLORE["E2-maxentries-control"] = dict(_E2M, expect="none",
-                                        drive=[dict(name="entries", menu=_MENU_ENTRIES, runs=(20, 200), len=120, consts=dict(MaxBatch=14))])
+                                        drive=[dict(name="entries", menu=_MENU_ENTRIES, runs=(20, 80), len=120, consts=dict(MaxBatch=14))])
